@@ -818,9 +818,12 @@ def write_pam(matrix, matrix_size, out, scale=1, border=None, dark='#000', light
         tuple_type = 'RGB'
     is_rgb = tuple_type.startswith('RGB')
     colours = None
+    stroke_sample = b'\x01' if _color_is_white(stroke_color) else b'\x00'
     if not is_rgb and transparency:
         depth = 2
-        colours = (b'\x01\x00', b'\x00\x01')
+        colours = (b'\x01\x00', stroke_sample + b'\x01')
+    elif not is_rgb:
+        colours = (b'\x01' if _color_is_white(bg_color) else b'\x00', stroke_sample)
     elif is_rgb:
         maxval = 255
         depth = 3 if not transparency else 4
